@@ -644,8 +644,8 @@ func copyPairs(fd *ast.FuncDecl) ([][2]string, error) {
 				res = append(res, [2]string{d, s})
 				continue
 			}
-			// delegation p.mem.TakeSnapshot(): recorded as ("->", method)
-			res = append(res, [2]string{"->", exprString(call.Fun)})
+			// delegation p.mem.TakeSnapshot(): recorded as ("->", "<type of the field>.method")
+			res = append(res, [2]string{"->", normDeleg(fd, call.Fun)})
 		case *ast.AssignStmt:
 			if len(v.Lhs) != len(v.Rhs) || v.Tok != token.ASSIGN {
 				return nil, fmt.Errorf("unexpected assignment in %s", fd.Name.Name)
@@ -783,7 +783,7 @@ func zeroedFields(fd *ast.FuncDecl) ([]string, error) {
 		for _, st := range fd.Body.List {
 			if es, ok := st.(*ast.ExprStmt); ok {
 				if call, ok := es.X.(*ast.CallExpr); ok {
-					res = append(res, "->"+exprString(call.Fun))
+					res = append(res, "->"+normDeleg(fd, call.Fun))
 				}
 			}
 		}
@@ -791,8 +791,51 @@ func zeroedFields(fd *ast.FuncDecl) ([]string, error) {
 	return res, err
 }
 
+// structFieldTypes: struct type -> field -> declared type, of package memory
+var structFieldTypes = map[string]map[string]string{}
+
+func collectStructFields(files map[string]*ast.File) {
+	for _, f := range files {
+		ast.Inspect(f, func(n ast.Node) bool {
+			ts, ok := n.(*ast.TypeSpec)
+			if !ok {
+				return true
+			}
+			st, ok := ts.Type.(*ast.StructType)
+			if !ok {
+				return true
+			}
+			m := map[string]string{}
+			for _, fl := range st.Fields.List {
+				for _, nm := range fl.Names {
+					m[nm.Name] = exprString(fl.Type)
+				}
+			}
+			structFieldTypes[ts.Name.Name] = m
+			return true
+		})
+	}
+}
+
+// normDeleg: `recv.field.Method` is written `<T>.Method` where T is the declared type of the field (the name of the
+// receiver and of the field are not facts the model depends on); anything else as it stands
+func normDeleg(fd *ast.FuncDecl, fun ast.Expr) string {
+	if outer, ok := fun.(*ast.SelectorExpr); ok {
+		if inner, ok := outer.X.(*ast.SelectorExpr); ok {
+			if id, ok := inner.X.(*ast.Ident); ok && fd.Recv != nil && len(fd.Recv.List) == 1 && len(fd.Recv.List[0].Names) == 1 &&
+				fd.Recv.List[0].Names[0].Name == id.Name {
+				if t, ok := structFieldTypes[recvType(fd)][inner.Sel.Name]; ok {
+					return "<" + t + ">." + outer.Sel.Name
+				}
+			}
+		}
+	}
+	return exprString(fun)
+}
+
 func doMemory(repo, outDir string) {
 	files := parseDir(filepath.Join(repo, "memory"))
+	collectStructFields(files)
 	collectZeroingHelpers(files)
 	type key struct{ typ, method string }
 	methods := map[key]*ast.FuncDecl{}
